@@ -269,12 +269,17 @@ where
                                         "to sink: {message:?}"
                                     );
                                 } else {
-                                    for s in &**sinks.load() {
+                                    // on termination empty the list first, so that a sink attaching
+                                    // from inside a handler starts a fresh subscription
+                                    let sinks = if let Message::Error(_) | Message::Terminate = message
+                                    {
+                                        sinks.swap(Arc::new(vec![]))
+                                    } else {
+                                        sinks.load_full()
+                                    };
+                                    for s in &*sinks {
                                         call!(s, message.clone(), "to sink: {message:?}");
                                     }
-                                }
-                                if let Message::Error(_) | Message::Terminate = message {
-                                    sinks.store(Arc::new(vec![]));
                                 }
                             }
                         }
